@@ -363,6 +363,14 @@ class GenericSpatialTransform(SequentialTransform):
             if flip_grid_coords:
                 scales = scales.flip(-1)
             data["scaling"] = scales
+        if "shearing" in self._transforms:
+            shearing = pred["shearing"]
+            assert isinstance(shearing, Tensor)
+            if flip_grid_coords:
+                raise NotImplementedError(
+                    f"{type(self).__name__} predicted 'shearing' parameters with flip_grid_coords=True"
+                )
+            data["shearing"] = shearing
         if "quaternion" in self._transforms:
             q = pred["quaternion"]
             assert isinstance(q, Tensor)
